@@ -258,6 +258,21 @@ fn main() {
         }
         t
     });
+    // S6: structured bases (word limits, products crossing word limits, patterns at every length, carry chains,
+    // all-ones words) with k extra zeros on both sides of the u64 power-of-ten limit
+    let st = structured_ints(tier.pick(80, 300), tier.pick(24, 60), run.seed());
+    run.bound("S6_structured_integers", st.len());
+    run.par("S6 structured families", st.len(), |i| {
+        let mut t = Tally::default();
+        let n = Dec { n: st[i].clone(), s: 0 }.norm().n;
+        for sign in [1, -1] {
+            for s in [0i128, 2, -2, 25, -25] {
+                let base = Dec { n: &n * sign, s };
+                check_family(&run, &family(&base, [0u64, 1, 2, 9, 18, 19, 20, 21, 40].into_iter()), &mut t);
+            }
+        }
+        t
+    });
     // S5: slices / Vec of decimals: element-wise value-equal sequences must feed identical data too
     // (Hash::hash_slice is part of the same trait impl)
     let seq_pool: Vec<Vec<Dec>> = vec![
